@@ -21,6 +21,7 @@ type vUCall struct {
 	validName, obj, field string
 	failed                bool
 	clause                string
+	val                   reflect.Value // the value the walker handed to the rule
 }
 
 var vULog []vUCall
@@ -44,7 +45,7 @@ func vURule(tag string) CommonValidFn {
 	return func(errBuf *strings.Builder, validName, objName, fieldName string, tv reflect.Value) {
 		id := vUSeq // never reset: nondeterministic choices need unique names across calls
 		vUSeq++
-		c := vUCall{tag: tag, validName: validName, obj: objName, field: fieldName}
+		c := vUCall{tag: tag, validName: validName, obj: objName, field: fieldName, val: tv}
 		if !vUNoFail && vndBool("fail"+vNum(id)) {
 			c.failed = true
 			c.clause = "<" + tag + "#" + vNum(id) + " " + objName + "." + fieldName + ">" + ErrEndFlag
@@ -58,9 +59,10 @@ func vURule(tag string) CommonValidFn {
 
 type vExp struct {
 	isCall                bool
-	who                   string // expected function object ("" = not asserted)
-	validName, obj, field string // call
-	text                  string // literal clause (with separator)
+	who                   string        // expected function object ("" = not asserted)
+	validName, obj, field string        // call
+	text                  string        // literal clause (with separator)
+	val                   reflect.Value // expected argument of the call
 }
 
 type vGroupMember struct {
@@ -218,7 +220,7 @@ func (r *vRef) rule(owner, obj, field, item string, fv reflect.Value, isStruct b
 			r.lit(vQuotePath(obj, field) + "input \"" + fv.String() + "\", " + suffix + ErrEndFlag)
 			return
 		}
-		r.out = append(r.out, vExp{isCall: true, who: who, validName: item, obj: obj, field: field})
+		r.out = append(r.out, vExp{isCall: true, who: who, validName: item, obj: obj, field: field, val: fv})
 	case key == Required:
 		if vEmpty(fv) {
 			msg := vRuleMsg(item)
@@ -419,6 +421,7 @@ func vCheckAgainstRef(tag string, err error, r *vRef) {
 		if e.who != "" {
 			vAssert(c.tag == e.who, tag+": rule name resolves to the per-call function, else the global one, else the built-in")
 		}
+		vAssert(vSameValue(c.val, e.val), tag+": the rule is evaluated on the value of its own field")
 		if c.failed {
 			want += c.clause
 		}
@@ -481,6 +484,14 @@ func vCheckUnordered(tag string, err error, r *vRef) {
 			gotClauses[i] += ErrEndFlag
 		}
 	}
+	// the members of a group clause are listed in registration order, which for map inputs is Go's
+	// unspecified iteration order: compare group clauses with their member list sorted
+	for i := range wantClauses {
+		wantClauses[i] = vNormGroupClause(wantClauses[i])
+	}
+	for i := range gotClauses {
+		gotClauses[i] = vNormGroupClause(gotClauses[i])
+	}
 	vSortStrings(wantClauses)
 	vSortStrings(gotClauses)
 	vAssert(len(wantClauses) == len(gotClauses), tag+": number of clauses")
@@ -498,4 +509,42 @@ func vSortStrings(a []string) {
 			a[j], a[j-1] = a[j-1], a[j]
 		}
 	}
+}
+
+// vSameValue: the walker handed the rule the value the reference expects (kind and content).
+func vSameValue(got, want reflect.Value) bool {
+	if !got.IsValid() || !want.IsValid() {
+		return got.IsValid() == want.IsValid()
+	}
+	if got.Kind() == reflect.Interface && !got.IsNil() {
+		got = got.Elem()
+	}
+	if want.Kind() == reflect.Interface && !want.IsNil() {
+		want = want.Elem()
+	}
+	if got.Kind() != want.Kind() {
+		return false
+	}
+	if !got.CanInterface() || !want.CanInterface() {
+		return true
+	}
+	switch got.Kind() {
+	case reflect.Func, reflect.Chan:
+		return true
+	case reflect.Float32, reflect.Float64:
+		g, w := got.Float(), want.Float()
+		return g == w || (g != g && w != w) // NaN is not DeepEqual to itself
+	}
+	return reflect.DeepEqual(got.Interface(), want.Interface())
+}
+
+func vNormGroupClause(c string) string {
+	for _, suffix := range []string{" " + ExplainEn + " they shouldn't all be empty" + ErrEndFlag, " " + ExplainEn + " they should be equal" + ErrEndFlag} {
+		if strings.HasSuffix(c, suffix) {
+			names := strings.Split(c[:len(c)-len(suffix)], ", ")
+			vSortStrings(names)
+			return strings.Join(names, ", ") + suffix
+		}
+	}
+	return c
 }
